@@ -8,6 +8,8 @@ from ..exact import fzero, finf, fninf, fnan, raw_json as J, raw_unjson as U
 
 ID = "C04"
 LEVEL = "exploration"
+CASE_TIMEOUT = 30.0          # each case is a micro/milli-second integer kernel
+HANG_IS_VIOLATION = True
 RULE = ("Cases = (operation, complex operands whose components come from the structural mantissa classes with "
         "correlated magnitudes [equal, one tiny, one zero, pure real/imaginary, far-apart exponents], real/int/float/"
         "complex second operands, precision, rounding mode). Entry points: libmp mpc_add/sub/mul/mul_mpf/add_mpf/"
